@@ -6,8 +6,8 @@
  *      resolved with a value  |  resolved with exception object X  |  dropped (promise destroyed while still owning the future: the
  *      awaiting party then observes "no value" = await_canceled_exception, property C01)
  * Totals (gh_pr_n_*) and, for ONE arbitrary-but-fixed future gh_W ("watched"), the exact counts - a statement proved for an arbitrary
- * future holds for every future.  The last element a promise was moved out of is remembered when the source lies inside the object
- * PR_CONTAINER (the scheduler's vector), so that contracts can speak about "the entry the returned promise came from".
+ * future holds for every future.  The element a promise was most recently moved out of is remembered when the including spec
+ * says so through PR_CONTAINER_RECORD(src) (C12: the scheduler vector), so that contracts can speak about "the entry the returned promise came from".
  * Required: type PROM (promise<void>), SPB (suspend_point<bool>); optional macro PR_CONTAINER_RECORD(src).  Trusted base. */
 #define PR_OWN(p) (*(void **)&(p)->_owner)
 void *gh_W;                                            /* the watched future (arbitrary; logical variable, never assigned) */
